@@ -70,6 +70,11 @@ class _CanonIf(ast.NodeTransformer):
         self.generic_visit(node)
         while node.orelse and isinstance(node.test, ast.UnaryOp) and isinstance(node.test.op, ast.Not):
             node.test, node.body, node.orelse = node.test.operand, node.orelse, node.body
+        # `a != b` is exactly `not (a == b)` (also for NaN), `a is not b` exactly `not (a is b)`: the two-armed form is analysed with the positive test
+        if node.orelse and isinstance(node.test, ast.Compare) and len(node.test.ops) == 1 and isinstance(node.test.ops[0], (ast.NotEq, ast.IsNot)):
+            pos = ast.Eq() if isinstance(node.test.ops[0], ast.NotEq) else ast.Is()
+            node.test = ast.copy_location(ast.Compare(left=node.test.left, ops=[pos], comparators=node.test.comparators), node.test)
+            node.body, node.orelse = node.orelse, node.body
         return node
 
     def _loop(self, node):
